@@ -1,2 +1,30 @@
-(* Props/C06.v *)
+(* Props/C06.v — property C06, first clause: statements only. *)
 From ChiaV.Base Require Import Bytes.
+From ChiaV.Clvm Require Import Sexp Ints.
+From ChiaV.Cond Require Import Model Strict.
+Open Scope N_scope.
+
+(* Clearing any of NO_UNKNOWN_CONDS / STRICT_ARGS_COUNT / LIMIT_SPENDS (same fork flags, same
+   signature mode) never turns an accepted bundle into a rejected one and never changes the result:
+   for every tree, visitor, limit, key oracle and hash function. *)
+Theorem C06_strict_implies_lenient : forall vk H K V fl fl',
+  (f_cost_conds fl' = f_cost_conds fl /\ f_dont_validate fl' = f_dont_validate fl /\
+   (f_no_unknown fl' = true -> f_no_unknown fl = true) /\
+   (f_strict fl' = true -> f_strict fl = true) /\
+   (f_limit_spends fl' = true -> f_limit_spends fl = true)) ->
+  forall t max_cost clvm_cost r,
+  parse_spends vk H K fl V t max_cost clvm_cost = Ok r ->
+  parse_spends vk H K fl' V t max_cost clvm_cost = Ok r.
+Proof. exact strict_implies_lenient. Qed.
+
+(* the same holds one level down, for the argument parser of a single condition *)
+Theorem C06_parse_args_strict_implies_lenient : forall fl fl',
+  (f_cost_conds fl' = f_cost_conds fl /\ f_dont_validate fl' = f_dont_validate fl /\
+   (f_no_unknown fl' = true -> f_no_unknown fl = true) /\
+   (f_strict fl' = true -> f_strict fl = true) /\
+   (f_limit_spends fl' = true -> f_limit_spends fl = true)) ->
+  forall c op cva, parse_args fl c op = Ok cva -> parse_args fl' c op = Ok cva.
+Proof. exact parse_args_weaker. Qed.
+
+(* C06_permutation (reordering spends / conditions never changes verdict, cost or aggregates) is not
+   proved yet; it is checked on the implementation and the model for every generated bundle. *)
